@@ -46,13 +46,20 @@ ALPHABET = [
     ["ext f 1"], ["ext f N"], ["ext d 2"], ["redef 1"],   # N: external with address NULL
     ["link interp -", "call"], ["link interp -"], ["link gen 0", "call"],
     ["link null fd"], ["link lazy fg", "call"], ["call"],
+    ["reload {first}"],                # MIR_load_module again on the first module object of the history
 ]
 
 
 def instantiate(seq):
-    out = []
+    out, first = [], None
     for k, op in enumerate(seq):
-        out += [l.format(i=k + 1) for l in op]
+        for l in op:
+            if "{first}" in l:
+                if first is None: continue      # nothing loaded yet: the operation is dropped
+                l = l.replace("{first}", str(first))
+            l = l.format(i=k + 1)
+            if first is None and l.startswith("load "): first = k + 1
+            out.append(l)
     return out
 
 
@@ -131,15 +138,17 @@ def rand_history(rng, maxlen=50):
     out = []
     if rng.chance(3, 4): out.append("redef 1")
     allnames = "".join(FUNC_NAMES + DATA_NAMES)
-    k = 0
+    k, loaded_ids = 0, []
     while len(out) < n:
         k += 1
         r = rng.below(100)
-        if r < 45: out.append(rand_module(rng, len(out) + 1))
+        if r < 45:
+            out.append(rand_module(rng, len(out) + 1)); loaded_ids.append(len(out))
         elif r < 55:
             nm = rng.choice(FUNC_NAMES + DATA_NAMES)
             out.append("ext %s %s" % (nm, "N" if rng.chance(1, 6) else str(rng.below(4))))
         elif r < 60: out.append("redef %d" % (0 if rng.chance(1, 6) else 1))
+        elif r < 67 and loaded_ids: out.append("reload %d" % loaded_ids[rng.below(len(loaded_ids))])
         elif r < 82:
             iface = ["interp"] * 35 + ["gen"] * 25 + ["lazy"] * 15 + ["null"] * 25
             iface = iface[rng.below(100)]
@@ -248,7 +257,10 @@ def classify(hist, j, impl, model, spec, tie_ok):
         m, n = key
         use = [d[0] for d in loads.get(m, []) if d[1] == n and d[0] in "CPR"]
         use = use[0] if use else "?"
+        reloaded = any(l.split() == ["reload", m[1:]] for l in hist[:j])
         if use == "C" and m in null_linked: sigs.add("C13:null-link-stale-inline")
+        elif reloaded and use == "C": sigs.add("C13:reload-stale-inline")
+        elif reloaded and use in "PR" and iface_of.get(m) in ("gen", "lazy"): sigs.add("C13:reload-stale-mcode")
         elif use in "PR" and iface_of.get(m) == "interp": sigs.add("C13:interp-late-rebinding")
         else: sigs.add("C13:binding-not-last-def")
     for key in iv:
@@ -282,11 +294,45 @@ def assert_only(hist, j, line):
                 failed = False
                 if t[1] == "null": nulled = nulled or pend_expr
                 else: pend_expr, nulled = False, False
-    return (pend_expr and nulled) or failed
+    # ... and when a module object is in the queue again (reload): its interpreted functions still carry
+    # their func_desc in item->data, and one that is queued twice is flagged by the first pass
+    requeued = False
+    for k, l in enumerate(hist[:j]):
+        t = l.split()
+        o = outs[k] if k < len(outs) else ""
+        if t[0] == "reload" and o.startswith("ok"): requeued = True
+        elif t[0] == "link" and t[1] != "null" and o.startswith("ok"): requeued = False
+    return (pend_expr and nulled) or failed or requeued
+
+
+def reload_after_failed_link(hist, impl, j):
+    """known defect, outside the model: MIR_load_module on an existing module object calls
+    finish_func_interpretation on item->data, which a MIR_link aborted by the error function has left as the
+    inline flag (void *) 1 on the functions it had simplified -> free ((void *) 1)"""
+    if j >= len(hist) or not hist[j].startswith("reload") or not impl[j].startswith("crash"): return False
+    failed, loaded_before = False, False
+    ident = hist[j].split()[1]
+    seen = set()
+    for k, l in enumerate(hist[:j]):
+        t, o = l.split(), impl[k]
+        if t[0] in ("load", "reload") and o.startswith("ok"): seen.add(t[1])
+        elif t[0] == "link":
+            if o.startswith("err MIR_undeclared_op_ref_error"):
+                failed = True
+                if ident in seen: loaded_before = True
+            elif o.startswith("ok"): failed, loaded_before = False, False
+    return failed and loaded_before
 
 
 def judge(hist, impl, model, spec):
     """-> (tie_ok, first_tie_diff, spec_dev or None)"""
+    if any(l.startswith("bad ") for l in impl + model + spec):
+        return True, None, None          # not a history (the shrinker removed the load a reload refers to)
+    for j in range(len(impl)):
+        if reload_after_failed_link(hist, impl, j):
+            t, td, _ = judge(hist[:j], impl[:j], model[:j], spec[:j] + ["any"])
+            return t, td, {"line": j, "op": hist[j], "impl": impl[j], "spec": spec[j] if j < len(spec) else "-",
+                           "signature": "C13:reload-after-failed-link"}
     IMPL_CTX["impl"] = impl
     for j, l in enumerate(impl):
         if assert_only(hist, j, l):
@@ -305,6 +351,11 @@ def judge(hist, impl, model, spec):
     for j in range(len(spec)):
         s = spec[j]
         if s == "any": break
+        if s == "skip":
+            # calling a module bound to a function of a module that was reloaded and not linked again:
+            # the statement is silent; go on only if the real code survived the call
+            if j < len(impl) and impl[j].startswith("ok"): continue
+            break
         a = impl[j] if j < len(impl) else "<none>"
         if a != s:
             dev = {"line": j, "op": hist[j] if j < len(hist) else None, "impl": a, "spec": s,
@@ -342,6 +393,7 @@ reported = set()
 
 def history_stats(hist, impl):
     defs = {}
+    texts = {}
     nontriv = False
     pend_imports = []
     for j, l in enumerate(hist):
@@ -358,7 +410,14 @@ def history_stats(hist, impl):
             break
         if t[0] == "load":
             ds = t[2:]
+            texts[t[1]] = ds
             for d in ds: stats["decl_kinds"][d[0]] = stats["decl_kinds"].get(d[0], 0) + 1
+            for d in ds:
+                if d[0] == "E" and any(x[1] == d[1] and x[0] in "D" + DATA_KINDS for x in ds):
+                    defs[d[1]] = defs.get(d[1], 0) + 1
+                if d[0] in "CPR": pend_imports.append(d[1])
+        elif t[0] == "reload":
+            ds = texts.get(t[1], [])
             for d in ds:
                 if d[0] == "E" and any(x[1] == d[1] and x[0] in "D" + DATA_KINDS for x in ds):
                     defs[d[1]] = defs.get(d[1], 0) + 1
@@ -477,7 +536,7 @@ ck.cov["rule"] = ("history = list of API calls (load of a freshly built module /
                   "(redefinition before a link), counted on distinct history texts.")
 ck.cov["distribution"] = stats
 ck.assumptions += [
-    "every load builds a fresh module; loading the same MIR_module_t object twice is not modelled",
+    "every `load` builds a fresh module object; `reload <id>` is MIR_load_module again on an existing object",
     "function names f,g,h are only called, data names d,e only read (a use of the wrong kind would crash the harness)",
     "entry functions are small, so the inline growth limits of process_inlines never apply; exported functions have 1 insn",
     "a call that reaches a thunk still redirected to undefined_interface is matched as {SIGSEGV, MIR_call_op_error}: "
